@@ -347,6 +347,10 @@ def check_records(ctx, cases_recs, tag: str):
             seen.add(key)
             n_viol += 1
             stable = key if key.startswith(("scalars-file:", "output-folder:")) else f"output-folder:{key}"
+            reported = ctx.cov.setdefault("violation_keys", {})
+            reported[stable] = reported.get(stable, 0) + 1
+            if reported[stable] > 3:
+                continue            # the first three inputs of a key are reported (and kept in the corpus); the rest are counted
             ctx.violation(stable, msg, replay_obj(case, rec["rop"], stable))
             if stable not in (K_SCALAR_NULL_EMPTY, K_SCALAR_DATE_TIME, K_NUMBER_ULP):
                 save_corpus(case, rec["rop"], stable)
@@ -432,6 +436,21 @@ def suite_cases(ctx, n):
     return out
 
 
+def directed_cases():
+    import pandas as pd
+    import engine
+    structs = engine.structures(engine.ds_struct("DS_1", [("Id_1", "Integer", "Identifier", False), ("Me_1", "String", "Measure", True),
+                                                          ("Me_2", "Number", "Measure", True)]))
+    df = pd.DataFrame({"Id_1": pd.Series([1, 2, 3], dtype="object"), "Me_1": pd.Series(["a,b", None, ""], dtype="object"),
+                       "Me_2": pd.Series([0.5, None, 1234.5678], dtype="object")})
+    scripts = [
+        "'DS.r' <- DS_1;\n'DS.q' <- DS_1[filter Id_1 > 1];\n'DS' <- DS_1[keep Me_1];\n'sc.x' <- 1;\n'sc.y' <- \"a,b\";\n",
+        "'a.b.c' <- DS_1;\n'a.b.d' := DS_1[keep Me_2];\n'a.b' <- DS_1[filter Id_1 > 5];\n'out.csv' <- DS_1;\n'out.parquet' <- DS_1[keep Me_1];\n",
+        "'my result' <- DS_1;\n'sum' <- DS_1[keep Me_2];\n'1st' := DS_1;\n'résultat.é' <- DS_1;\n'trail.' <- DS_1;\n'.hidden' <- DS_1;\n'sc x' <- 2.5;\n'value' <- true;\n",
+    ]
+    return [{"script": s_, "structs": structs, "data": {"DS_1": df}} for s_ in scripts]
+
+
 def run(ctx):
     import engine
     engine.install(need_parser=True)
@@ -461,10 +480,12 @@ def run(ctx):
                 recs.append((case, evaluate_case(case, obj["rop"], tmp / f"p{past}")))
                 past += 1
         ctx.cov["corpus_past_failures"] = past
-        # 2. generated
+        # 2. directed (result / scalar names that need quotes: they become file names), then generated
+        directed = directed_cases()
         skipped = 0
-        for i in range(n_gen):
-            case = G.gen_data_case(ctx.rng)
+        for i in range(-len(directed), n_gen):
+            case = directed[i] if i < 0 else G.gen_data_case(ctx.rng)
+            hist["quoted-result-names"] = hist.get("quoted-result-names", 0) + case["script"].count("'") // 2
             for t in set(c["type"] for c in case["structs"]["datasets"][0]["DataStructure"]):
                 hist[t] = hist.get(t, 0) + 1
             hist["rows=%d" % len(case["data"]["DS_1"])] = hist.get("rows=%d" % len(case["data"]["DS_1"]), 0) + 1
@@ -478,13 +499,14 @@ def run(ctx):
                         ctx.log("generated case fails in memory:", rec["skip"], "| script:", case["script"][:120].replace("\n", " "))
                     continue
                 recs.append((case, rec))
-            if i < 3:
+            if 0 <= i < 3:
                 ctx.sample({"script": case["script"], "rows": case["data"]["DS_1"].head(3).to_dict("list")})
             flush()
         ctx.cov["generated_cases"] = n_gen
+        ctx.cov["directed_cases"] = len(directed)
         ctx.cov["generated_skipped_engine_error"] = skipped
         ctx.oblige("generator: at most 20% of the generated cases fail on the plain in-memory run", skipped <= 0.2 * 2 * n_gen,
-                   f"{skipped} of {2 * n_gen} runs raised")
+                   f"{skipped} of {2 * (n_gen + len(directed))} runs raised")
         # 3. test-suite scripts with data
         sc = suite_cases(ctx, n_suite)
         n_ok = n_skip = 0
